@@ -1,0 +1,112 @@
+//go:build verif
+
+// Contracts for the verification machinery in /verif (comment-only; no declarations).
+//
+// C01 (TLS): the key handed to the transport came out of a one-certificate chain that verifies against itself and
+// whose libp2p extension carries a signature, valid under that key, over "libp2p-tls-handshake:" ++ the certificate's
+// own public key; it matches the expected peer when one was named; the connection reports the ID derived from it.
+// crypto/x509, encoding/asn1, crypto/tls and the key implementations are abstract (guard contracts over their calls).
+
+package libp2ptls
+
+//@ pred oidEq(a []int, b []int) = len(a) == len(b) && (forall j int :: 0 <= j && j < len(a) ==> a[j] == b[j])
+
+//@ func extensionIDEqual
+//@ prop C01
+//@ loop 0 invariant forall j int :: 0 <= j && j < idx0 ==> a[j] == b[j]
+//@ ensures result <==> oidEq(a, b)
+//@ modifies nothing
+
+//@ func PubKeyFromCertChain
+//@ prop C01
+//@ loop 0 invariant !found
+// (stated as a cut right after the search loop: package-level slices carry no allocation fact, so the same clause as a
+// postcondition is lost at the later append; Extensions is not written after this point)
+//@ assert before Verify#0: oidEq(cert.Extensions[idx0].Id, extensionID) && keyExt.Id == cert.Extensions[idx0].Id && cert == chain[0]
+// exactly one certificate, verified against a pool that holds only itself
+//@ ensures result1 == nil ==> len(chain) == 1
+//@ ensures result1 == nil ==> called(Verify, 0) && arg(Verify, 0, 0) == chain[0] && ret(Verify, 0, 1) == nil && arg(Verify, 0, 1).Roots == pool &&
+//@         pool == ret(NewCertPool, 0, 0) && called(AddCert, 0) && arg(AddCert, 0, 0) == pool && arg(AddCert, 0, 1) == chain[0] && ncalls(AddCert, 0) == 1
+// the signed key is the value of an extension of that certificate carrying the libp2p OID
+//@ ensures result1 == nil ==> called(Verify, 0) && found && 0 <= idx0 && idx0 < len(chain[0].Extensions)
+//@ ensures result1 == nil ==> called(Verify, 0) && keyExt.Value == chain[0].Extensions[idx0].Value
+//@ ensures result1 == nil ==> called(Unmarshal, 0) && arg(Unmarshal, 0, 0) == keyExt.Value && ret(Unmarshal, 0, 1) == nil && arg(Unmarshal, 0, 1) == &sk
+// the result is the key inside it, and its signature over prefix ++ PKIX(certificate key) verified under that key
+//@ ensures result1 == nil ==> called(UnmarshalPublicKey, 0) && ret(UnmarshalPublicKey, 0, 1) == nil && result0 == ret(UnmarshalPublicKey, 0, 0) &&
+//@         arg(UnmarshalPublicKey, 0, 0) == sk.PubKey
+//@ ensures result1 == nil ==> called(MarshalPKIXPublicKey, 0) && arg(MarshalPKIXPublicKey, 0, 0) == chain[0].PublicKey && ret(MarshalPKIXPublicKey, 0, 1) == nil
+//@ ensures result1 == nil ==> called(Verify, 1) && arg(Verify, 1, 0) == result0 && ret(Verify, 1, 0) && ret(Verify, 1, 1) == nil && arg(Verify, 1, 2) == sk.Signature
+//@ ensures result1 == nil ==> len(arg(Verify, 1, 1)) == 21 + len(ret(MarshalPKIXPublicKey, 0, 0)) && len(certificatePrefix) == 21 && certificatePrefix == "libp2p-tls-handshake:" &&
+//@         (forall i int :: 0 <= i && i < len(ret(MarshalPKIXPublicKey, 0, 0)) ==> arg(Verify, 1, 1)[len(certificatePrefix) + i] == ret(MarshalPKIXPublicKey, 0, 0)[i])
+//@ ensures result1 == nil ==> forall i int :: 0 <= i && i < len(certificatePrefix) ==> arg(Verify, 1, 1)[i] == certificatePrefix[i]
+//@ ensures result1 != nil ==> result0 == nil
+//@ noframe
+
+// ---- the VerifyPeerCertificate callback: a key goes onto the channel only after the chain passed PubKeyFromCertChain
+// and (if a peer was named) the key derives exactly that peer ID; every other outcome is an error with nothing sent
+//@ func (i *Identity) ConfigForPeer
+//@ prop C01
+// guarantee side of the key channel: whatever the callback sends derives the expected peer ID (when one was named)
+//@ chaninv keyCh(k ic.PubKey) = remote == "" || (nth(peer.IDFromPublicKey(k), 1) == nil && nth(peer.IDFromPublicKey(k), 0) == remote)
+//@ noframe
+//@ closure 0
+//@ loop 0 invariant len(chain) == len(rawCerts)
+//@ loop 0 iteration called(ParseCertificate, 0) && arg(ParseCertificate, 0, 0) == rawCerts[i] && ret(ParseCertificate, 0, 1) == nil && chain[i] == ret(ParseCertificate, 0, 0)
+//@ ensures err == nil ==> called(PubKeyFromCertChain, 0) && arg(PubKeyFromCertChain, 0, 0) == chain && len(chain) == len(rawCerts) &&
+//@         ret(PubKeyFromCertChain, 0, 1) == nil && pubKey == ret(PubKeyFromCertChain, 0, 0)
+//@ ensures err == nil && remote != "" ==> nth(peer.IDFromPublicKey(pubKey), 1) == nil && nth(peer.IDFromPublicKey(pubKey), 0) == remote
+//@ ensures err == nil ==> sent(keyCh) == 1 && sentval(keyCh) == pubKey
+//@ ensures err != nil ==> sent(keyCh) == 0
+//@ noframe
+
+// ---- the connection reports the ID derived from the key it was given
+//@ func (t *Transport) setupConn
+//@ prop C01
+//@ ensures result1 == nil ==> result0 != nil && nth(peer.IDFromPublicKey(remotePubKey), 1) == nil
+//@ ensures result1 == nil ==> forall c *conn :: c == result0 ==> c.remotePubKey == remotePubKey && c.remotePeer == nth(peer.IDFromPublicKey(remotePubKey), 0) &&
+//@         c.Conn == tlsConn && c.localPeer == t.localPeer
+//@ ensures result1 != nil ==> result0 == nil
+//@ modifies nothing
+
+//@ func (c *conn) RemotePeer
+//@ prop C01
+//@ ensures result == c.remotePeer
+//@ modifies nothing
+
+//@ func (c *conn) RemotePublicKey
+//@ prop C01
+//@ ensures result == c.remotePubKey
+//@ modifies nothing
+
+// ---- handshake: success only after crypto/tls reported success on this connection; the key is non-nil and the
+// connection is the one setupConn built for it
+//@ func (t *Transport) handshake
+//@ prop C01
+//@ ensures err == nil ==> called(HandshakeContext, 0) && arg(HandshakeContext, 0, 0) == tlsConn && ret(HandshakeContext, 0, 0) == nil
+//@ ensures err == nil ==> recvd(keyCh) == 1 && remotePubKey == recvval(keyCh)
+//@ ensures err == nil ==> remotePubKey != nil && called(setupConn, 0) && arg(setupConn, 0, 1) == tlsConn && arg(setupConn, 0, 2) == remotePubKey &&
+//@         ret(setupConn, 0, 1) == nil && _sconn == ret(setupConn, 0, 0)
+//@ ensures err == nil ==> _sconn != nil && (forall c *conn :: c == _sconn ==> c.remotePubKey != nil && nth(peer.IDFromPublicKey(c.remotePubKey), 1) == nil &&
+//@         c.remotePeer == nth(peer.IDFromPublicKey(c.remotePubKey), 0) && c.Conn == tlsConn)
+//@ noframe
+
+// ---- both directions: the config (and with it the certificate callback) is specialised for the peer the caller named,
+// the TLS connection runs over the caller's connection with exactly that config, and the key is awaited on that
+// config's own channel; what is returned is what handshake returned
+//@ func (t *Transport) SecureOutbound
+//@ prop C01
+//@ callsite ConfigForPeer#0 requires arg0 == t.identity && arg1 == p
+//@ callsite handshake#0 requires arg3 == ret(ConfigForPeer, 0, 1) && arg2 == ret(Client, 0, 0) && arg(Client, 0, 0) == insecure && arg(Client, 0, 1) == ret(ConfigForPeer, 0, 0)
+//@ ensures called(handshake, 0) && result1 == ret(handshake, 0, 1) && result0 == ret(handshake, 0, 0)
+//@ ensures result1 == nil ==> result0 != nil && (forall c *conn :: c == result0 ==> c.remotePubKey != nil && nth(peer.IDFromPublicKey(c.remotePubKey), 1) == nil &&
+//@         c.remotePeer == nth(peer.IDFromPublicKey(c.remotePubKey), 0))
+//@ noframe
+
+//@ func (t *Transport) SecureInbound
+//@ prop C01
+//@ callsite ConfigForPeer#0 requires arg0 == t.identity && arg1 == p
+//@ callsite handshake#0 requires arg3 == ret(ConfigForPeer, 0, 1) && arg2 == ret(Server, 0, 0) && arg(Server, 0, 0) == insecure && arg(Server, 0, 1) == ret(ConfigForPeer, 0, 0)
+//@ ensures called(handshake, 0) && result1 == ret(handshake, 0, 1) && result0 == ret(handshake, 0, 0)
+//@ ensures result1 == nil ==> result0 != nil && (forall c *conn :: c == result0 ==> c.remotePubKey != nil && nth(peer.IDFromPublicKey(c.remotePubKey), 1) == nil &&
+//@         c.remotePeer == nth(peer.IDFromPublicKey(c.remotePubKey), 0))
+//@ noframe
